@@ -339,7 +339,7 @@ class TraceVerdict:
 
 
 def validate_trace(spec, events, workdir, shards=NCPU, timeout=900, env=None, cfg=None,
-                   heap="3g", min_per_shard=200, seg_start=None):
+                   heap="3g", min_per_shard=200, seg_start=None, continue_after=False, _depth=0):
     """Validate a list of events with a trace specification.
     The spec reads IOEnv.TRACE, consumes events one per step and must print
     <<"@@", "REACHED", n>> from its POSTCONDITION (n = events consumed);
@@ -401,6 +401,17 @@ def validate_trace(spec, events, workdir, shards=NCPU, timeout=900, env=None, cf
         v.accepted += reached
         if reached < len(chunk):
             v.rejected.append((chunk[reached], p, reached))
+            rest = chunk[reached + 1:]
+            if continue_after and rest and _depth < 12:
+                # stateless trace specs: keep validating what follows the rejected event,
+                # so that one rejection does not leave the rest of the shard unexamined
+                sub = validate_trace(spec, rest, workdir + "-c%d" % _depth, shards=1, timeout=timeout, env=env,
+                                     cfg=cfg, heap=heap, min_per_shard=min_per_shard, continue_after=True,
+                                     _depth=_depth + 1)
+                v.accepted += sub.accepted
+                v.rejected += sub.rejected
+                v.known += sub.known
+                v.infra += sub.infra
         elif reached > len(chunk):
             v.infra.append("TLC reached %d > %d on %s" % (reached, len(chunk), p))
     return v
@@ -568,7 +579,7 @@ class Conformance:
     def run(self, label, cfg, driver_name, driver_srcs, cases, spec, shards=NCPU, extra_cc=None,
             wraps=None, env=None, driver_timeout=900, tlc_timeout=900, driver_args=None,
             bdir=None, nontrivial=None, min_per_shard=200, seg_start=None, case_seg_start=None,
-            heap="3g"):
+            heap="3g", stateless=True):
         bdir = bdir or build_relic(cfg)
         exe = cc_harness(cfg, driver_name, driver_srcs, bdir=bdir, extra=extra_cc, wraps=wraps)
         d = os.path.join(self.wd, label)
@@ -589,7 +600,8 @@ class Conformance:
             cuts = set(j for j, e in enumerate(events)
                        if e.get("i") in S and (j == 0 or events[j - 1].get("i") != e.get("i")))
         v = validate_trace(spec, events, os.path.join(d, "tlc"), shards=shards, env=tenv,
-                           timeout=tlc_timeout, min_per_shard=min_per_shard, seg_start=cuts, heap=heap)
+                           timeout=tlc_timeout, min_per_shard=min_per_shard, seg_start=cuts, heap=heap,
+                           continue_after=(case_seg_start is None and stateless))
         log("%s/%s: %d cases, %d events, driver %.1fs, validation %.1fs, accepted %d, rejected %d"
             % (self.prop, label, len(cases), len(events), t1 - t0, v.wall, v.accepted, len(v.rejected)))
         for k in v.known:
